@@ -494,7 +494,7 @@ Proof.
   - destruct (lk (th s t)); [discriminate|]. destruct (take_err s t) as [[a b] s1] eqn:T. inversion H; subst.
     apply (RS_take_sleep _ _ _ _ _ _ _ _ W R0 Hs T). nb.
   - destruct (take_err s t) as [[a b] s1] eqn:T. inversion H; subst. apply (RS_take_set_pc _ _ _ _ _ _ W R0 Hs T). nb.
-  - eapply RS_lock_try; eauto.
+  - exact (RS_lock_try _ _ _ _ _ _ _ W R E He H).
   - destruct (take_err s t) as [[a b] s1] eqn:T.
     destruct (RSo_take_err _ _ _ _ _ R0 T) as (R1 & He1 & Hs1 & _). pose proof (WF_take_err _ _ _ _ _ W T) as W1.
     assert (Hs1' : st (th s1 t) <> SLEEPING) by congruence.
@@ -524,7 +524,7 @@ Proof.
       assert (W2 : WF s2) by (apply WF_wake_by; [apply WF_updT; auto; apply keeps_wkerr|rewrite th_updT_same; exact Hx]).
       destruct (rm_wake_by (updT s x (fun y => t_wk (t_err y (-1)) (WNotified t))) v x) as (A1 & _).
       destruct (A1 t) as (_ & _ & Ee & _ & Es). rewrite th_updT_other in Ee, Es by auto.
-      apply RS_set_pc; auto; [|fold s2; congruence|nb]. intros Hq. apply Es in Hq. auto.
+      apply RS_set_pc; [exact W2|exact R2|intros Hq; apply Es in Hq; auto|unfold s2; rewrite Ee; exact He|nb].
     + eapply RS_frame_set_pc; eauto; [|apply rm_bad|nb]. eapply WF_view; [|exact W]. repeat split; auto.
   - destruct all; inversion H; subst.
     + eapply RS_frame_set_pc; eauto; [apply WF_updT; auto; apply keeps_lk|apply rm_updT, rk_lk|nb].
@@ -540,7 +540,7 @@ Proof.
     assert (W2 : WF s2) by (apply WF_wake_by; [apply WF_updT; auto; apply keeps_wkerr|rewrite th_updT_same; exact Hx]).
     destruct (rm_wake_by (updT s k (fun y => t_wk (t_err y e) WInterrupted)) v k) as (A1 & _).
     destruct (A1 t) as (_ & _ & Ee & _ & Es). rewrite th_updT_other in Ee, Es by auto.
-    apply RS_set_pc; auto; [|fold s2; congruence|nb]. intros Hq. apply Es in Hq. auto.
+    apply RS_set_pc; [exact W2|exact R2|intros Hq; apply Es in Hq; auto|unfold s2; rewrite Ee; exact He|nb].
   - destruct o; inversion H; subst.
     + eapply RS_frame_set_pc; eauto; [apply WF_updT; auto; apply keeps_lk|apply rm_updT, rk_lk|nb].
     + eapply RS_frame_finish; eauto; [apply WF_updT; auto; apply keeps_lk|apply rm_updT, rk_lk].
@@ -549,6 +549,111 @@ Proof.
     apply RS_finish.
     + apply WF_updT; auto. apply keeps_err.
     + now apply RSo_set_err.
-    + rewrite th_updT. destruct (Nat.eqb k t) eqn:Ek; simpl; auto. destruct (Nat.eqb t k); simpl; auto.
-    + rewrite th_updT. destruct (Nat.eqb t k); simpl; [lia|auto].
+    + rewrite th_updT. destruct (Nat.eqb_spec t k); subst; simpl; auto.
+    + rewrite th_updT. destruct (Nat.eqb_spec t k); subst; simpl; [lia|auto].
+Qed.
+
+Lemma RS_timeout s v x c : WF s -> RS s -> st (th s x) = SLEEPING -> ts (th s x) <= now s ->
+  let s1 := updV s v (fun y => v_slq y (fst (pop_front (tsf s) (slq y)))) in
+  RS (updV (rq_append (updT (dequeue s1 x READY) x (fun y => t_wk y WTimeout)) v x) v (fun y => v_ipc y c)).
+Proof.
+  intros W R Hs Ht s1.
+  assert (W1 : WF s1) by (subst s1; apply WF_slq; auto; intros y Hy; left; now apply pop_front_sub in Hy).
+  set (S' := updV (rq_append (updT (dequeue s1 x READY) x (fun y => t_wk y WTimeout)) v x) v (fun y => v_ipc y c)).
+  assert (Fy : forall y, y <> x -> th S' y = th s y).
+  { intros y Hy. subst S'. proj. rewrite th_updT_other by auto. rewrite dequeue_th_other by auto. reflexivity. }
+  destruct (dequeue_x s1 x READY) as (D1 & _ & _ & D4 & _ & _ & D7 & _ & _ & D10 & _).
+  assert (Fx : tpc (th S' x) = tpc (th s x) /\ err (th S' x) = err (th s x) /\ ts (th S' x) = ts (th s x) /\
+               wk (th S' x) = WTimeout /\ st (th S' x) = READY).
+  { subst S'. proj. rewrite th_updT_same. simpl. rewrite D1, D4, D7, D10. repeat split; auto. }
+  destruct Fx as (X1 & X2 & X3 & X4 & X5).
+  assert (Fq : forall q y, In y (wqs S' q) -> In y (wqs s q) /\ y <> x).
+  { intros q y H. subst S'. proj. apply (dequeue_wqs s1 x READY W1) in H. exact H. }
+  constructor.
+  - intros y c0 H. apply Fq in H. destruct H as [H Hn]. rewrite (Fy y Hn). now apply (rs_cv s _ R).
+  - intros y l H. apply Fq in H. destruct H as [H Hn]. rewrite (Fy y Hn). now apply (rs_mx s _ R).
+  - intros y H. destruct (Nat.eq_dec y x) as [->|n]; [congruence|]. rewrite (Fy y n) in *. now apply (rs_sl s _ R).
+  - intros y Ho H. destruct (Nat.eq_dec y x) as [->|n].
+    + exfalso. rewrite X2 in H. pose proof (rs_sl s _ R x Hs) as Hk.
+      destruct (rs_err s _ R x Ho H) as [(c0 & l & n & _ & Hw)|(l & k & _ & Hw)]; congruence.
+    + rewrite (Fy y n) in *. now apply (rs_err s _ R).
+  - intros y c0 l Ho H1 H2. destruct (Nat.eq_dec y x) as [->|n].
+    + rewrite X3. exact Ht.
+    + rewrite (Fy y n) in *. now apply (rs_to s _ R y c0 l).
+  - intros y c0 l Ho H1 H2. destruct (Nat.eq_dec y x) as [->|n].
+    + right. exact X4.
+    + rewrite (Fy y n) in *. now apply (rs_e0 s _ R y c0 l).
+  - apply (rs_now s _ R).
+Qed.
+
+Lemma rm_idle_decide s v cnt : rs_mono s (idle_decide s v cnt).
+Proof. unfold idle_decide. destruct (_ || _); rm_peel. Qed.
+
+Lemma RS_idler_step s v s' : WF s -> RS s -> idler_step s v = Some s' -> RS s'.
+Proof.
+  intros W R H. unfold idler_step in H. destruct (vipc (vc s v)).
+  - destruct (eject (updV s v (fun y => v_sbq y [])) v (sbq (vc s v)) 0) as [s1 cnt] eqn:Ej. inversion H; subst.
+    eapply RS_frame; [|exact R]. eapply rm_trans; [|apply rm_updV].
+    change s1 with (fst (s1, cnt)). rewrite <- Ej. eapply rm_trans; [|apply rm_eject]. apply rm_updV.
+  - destruct (front (slq (vc s v))) as [x|]; [|inversion H; subst; eapply RS_frame; [apply rm_idle_decide|exact R]].
+    destruct (Z.ltb_spec (now s) (ts (th s x))); [inversion H; subst; eapply RS_frame; [apply rm_idle_decide|exact R]|].
+    destruct (lk (th s x)); [discriminate|].
+    match type of H with context [tstate_eqb ?a SLEEPING] => destruct (tstate_eqb_spec a SLEEPING) as [Hs|Hs] end; inversion H; subst.
+    + apply RS_timeout; auto.
+    + eapply RS_frame; [apply rm_updV|exact R].
+  - inversion H; subst. eapply RS_frame; [apply rm_updV|exact R].
+Qed.
+
+Lemma RS_vstep s v s' : WF s -> NG s -> RS s -> vstep s v = Some s' -> RS s'.
+Proof.
+  intros W G R H. unfold vstep in H. destruct (pend (vc s v)) as [[w l]|].
+  - destruct (do_unlock s v l) eqn:U; [|discriminate]. inversion H; subst.
+    eapply RS_frame; [eapply rm_trans; [apply rm_set_held|apply rm_updV]|]. eapply RSo_do_unlock; eauto.
+  - destruct (runq (vc s v)) as [|[t|] r] eqn:E; [discriminate| |].
+    + eapply RS_thread_step; eauto.
+    + eapply RS_idler_step; eauto.
+Qed.
+
+Theorem RS_reachable nv kinds home progs s : Reach nv kinds home progs s -> RS s.
+Proof.
+  induction 1 as [|s a s' Rc IH H].
+  - constructor; simpl; try (intros; contradiction).
+    + intros t H. destruct (Nat.ltb t nv); simpl in *; auto; discriminate.
+    + intros t _ H. destruct (Nat.ltb t nv); simpl in H; discriminate.
+    + intros t c l _ H. destruct (Nat.ltb t nv); simpl in H; discriminate.
+    + intros t c l _ H. destruct (Nat.ltb t nv); simpl in H; discriminate.
+    + unfold VSTART, MAX64. lia.
+  - pose proof (WF_reachable _ _ _ _ _ Rc) as W. pose proof (NG_reachable _ _ _ _ _ Rc) as G.
+    destruct a; simpl in H.
+    + eapply RS_vstep; eauto.
+    + inversion H; subst. now apply RS_tick.
+Qed.
+
+(* ---- cv_wait_result ------------------------------------------------------------------------------
+   The value wait() returns is `translate ret en`, where (ret, en) is what set_error_number delivers at
+   the resumption (the step from PWaitSlept); the re-lock loop only delays it.  At that step:
+     * the result is 0 only if a notify_one/notify_all picked this very waiter;
+     * the result is -1/ETIMEDOUT only if the waiter was woken by its vCPU's timer, and then its deadline
+       has passed (ts_wakeup <= now, and now never decreases). *)
+Theorem cv_wait_result nv kinds home progs s v t r c l :
+  Reach nv kinds home progs s -> runq (vc s v) = Th t :: r -> tpc (th s t) = PWaitSlept c l ->
+  let '(ret, en, _) := take_err s t in
+  (translate ret en = (0, 0) -> exists n, wk (th s t) = WNotified n) /\
+  (translate ret en = (-1, ETIMEDOUT) -> ret = 0 -> wk (th s t) = WTimeout /\ ts (th s t) <= now s).
+Proof.
+  intros Rc E P. pose proof (RS_reachable _ _ _ _ _ Rc) as R. pose proof (WF_reachable _ _ _ _ _ Rc) as W.
+  pose proof (WK_reachable _ _ _ _ _ Rc) as K.
+  pose proof (cur_not_sleeping _ _ _ _ W E) as Hs.
+  assert (Hk : wk (th s t) <> WNone).
+  { intros Hk. apply Hs. apply (wf_wq s W t (WCv c)). eapply K; eauto. }
+  unfold take_err. destruct (Z.eqb_spec (err (th s t)) 0) as [He|He].
+  - split.
+    + unfold translate. simpl. intros X; inversion X.
+    + intros _ _. destruct (rs_e0 s _ R t c l) as [X|X]; auto; try discriminate; [congruence|].
+      split; auto. eapply (rs_to s _ R); eauto. discriminate.
+  - split.
+    + unfold translate. simpl. destruct (Z.eqb_spec (err (th s t)) (-1)) as [Hm|Hm]; [|intros X; inversion X; lia].
+      intros _. destruct (rs_err s _ R t) as [(c0 & l0 & n & _ & Hw)|(l0 & k & Hp & _)]; auto; try discriminate; eauto.
+      congruence.
+    + intros _ X. lia.
 Qed.
